@@ -1,4 +1,5 @@
 #![feature(pattern)]
+#![feature(sized_hierarchy)]
 #![feature(allocator_api)]
 #![allow(unused, non_snake_case, non_camel_case_types)]
 use vstd::prelude::*;
